@@ -28,6 +28,7 @@ use std::collections::HashMap;
 
 const NOW_HEIGHT: u64 = 40;
 
+#[derive(Clone)]
 struct Cand {
     name: String,
     block: BlockView,
@@ -46,6 +47,9 @@ struct Context {
     /// through a reorganisation away and back (re-attaching blocks it has already verified)
     detour: Vec<BlockView>,
     detour_after: usize,
+    /// the judging nodes stay below an assume-valid target (they skip script execution; every
+    /// other rule applies unchanged)
+    assume_valid: bool,
 }
 
 fn with_header<F: FnOnce(packed::RawHeaderBuilder) -> packed::RawHeaderBuilder>(b: &BlockView, f: F) -> BlockView {
@@ -246,10 +250,13 @@ fn build_contexts(ctx: &Ctx, cons: &Consensus, shift: usize) -> Result<Vec<Conte
             // t_close (on the abandoned branch) and has never seen t_far
             sub.sort_by_key(|c| c.name != "commit/both-edges");
             let chain: Vec<BlockView> = lead.iter().chain(p[..5].iter()).cloned().collect();
-            out.push(Context { name: ["tip5-after-detour", "tip6-after-detour", "tip7-after-detour", "tip8-after-detour"][shift], chain, cands: sub, good: good.clone(), good_child: good_child.clone(), detour: q, detour_after: 3 + shift });
+            out.push(Context { name: ["tip5-after-detour", "tip6-after-detour", "tip7-after-detour", "tip8-after-detour"][shift], chain, cands: sub, good: good.clone(), good_child: good_child.clone(), detour: q, detour_after: 3 + shift, assume_valid: false });
         }
         let chain: Vec<BlockView> = lead.iter().chain(p[..5].iter()).cloned().collect();
-        out.push(Context { name: ["tip5", "tip6", "tip7-candidate-opens-epoch", "tip8"][shift], chain, cands, good, good_child, detour: vec![], detour_after: 0 });
+        if shift == 0 {
+            out.push(Context { name: "tip5-below-assume-valid-target", chain: chain.clone(), cands: cands.clone(), good: good.clone(), good_child: good_child.clone(), detour: vec![], detour_after: 0, assume_valid: true });
+        }
+        out.push(Context { name: ["tip5", "tip6", "tip7-candidate-opens-epoch", "tip8"][shift], chain, cands, good, good_child, detour: vec![], detour_after: 0, assume_valid: false });
     }
     if shift > 0 {
         return Ok(out);
@@ -274,7 +281,7 @@ fn build_contexts(ctx: &Ctx, cons: &Consensus, shift: usize) -> Result<Vec<Conte
         let u7 = forge.build_on(&p[5].hash(), &BlockSpec { miner: 17, ts_offset: 17, ..Default::default() })?;
         add("epoch-head/uncle-of-previous-epoch", good.as_advanced_builder().set_uncles(vec![u7.as_uncle()]).build(), false);
         let good_child = forge.build_on(&good.hash(), &BlockSpec { miner: 2, ..Default::default() })?;
-        out.push(Context { name: "tip7-epoch-head", chain: p[..7].to_vec(), cands, good, good_child, detour: vec![], detour_after: 0 });
+        out.push(Context { name: "tip7-epoch-head", chain: p[..7].to_vec(), cands, good, good_child, detour: vec![], detour_after: 0, assume_valid: false });
     }
     // ------------------------------------------------------------------ context 3: p6 already includes u5
     {
@@ -289,7 +296,7 @@ fn build_contexts(ctx: &Ctx, cons: &Consensus, shift: usize) -> Result<Vec<Conte
         let u6x = forge.build_on(&u5.hash(), &BlockSpec { miner: 18, ts_offset: 18, ..Default::default() })?;
         cands.push(Cand { name: "uncles/child-of-included-uncle".into(), block: good.as_advanced_builder().set_uncles(vec![unc(&u6x)]).build(), valid: true });
         let good_child = forge.build_on(&good.hash(), &BlockSpec { miner: 2, ..Default::default() })?;
-        out.push(Context { name: "tip6-with-uncle", chain, cands, good, good_child, detour: vec![], detour_after: 0 });
+        out.push(Context { name: "tip6-with-uncle", chain, cands, good, good_child, detour: vec![], detour_after: 0, assume_valid: false });
     }
     Ok(out)
 }
@@ -341,8 +348,13 @@ fn run_context(ctx: &Ctx, cons: &Consensus, c: &Context, which: Option<&str>, re
     let boot = |tag: &str| -> Result<Node, String> {
         let dir = ctx.scratch.join(format!("c03-{}-{tag}", c.name));
         let _ = std::fs::remove_dir_all(&dir);
-        let node = Node::boot(&dir, &NodeOpts::new(cons.clone()))?;
+        let mut opts = NodeOpts::new(cons.clone());
+        opts.assume_valid = c.assume_valid;
+        let node = Node::boot(&dir, &opts)?;
         node.wait_startup()?;
+        if c.assume_valid && node.shared.assume_valid_targets().is_none() {
+            return Err("the node is not in assume-valid mode".into());
+        }
         for (i, b) in c.chain.iter().enumerate() {
             if !c.detour.is_empty() && i == c.detour_after {
                 for d in &c.detour {
@@ -511,7 +523,7 @@ fn build_dyn_contexts(ctx: &Ctx, cons: &Consensus) -> Result<Vec<Context>, Strin
             add("genesis-epoch-target", good.as_advanced_builder().compact_target(cons.genesis_block().compact_target()).build(), false);
         }
         add("target+1", good.as_advanced_builder().compact_target(good.compact_target() + 1).build(), false);
-        out.push(Context { name, chain: p[..tip_n].to_vec(), cands, good: good.clone(), good_child: p[tip_n + 1].clone(), detour: vec![], detour_after: 0 });
+        out.push(Context { name, chain: p[..tip_n].to_vec(), cands, good: good.clone(), good_child: p[tip_n + 1].clone(), detour: vec![], detour_after: 0, assume_valid: false });
     }
     Ok(out)
 }
